@@ -37,6 +37,8 @@ type LockerIn struct {
 	Cancels  []LockCancel `json:"cancels,omitempty"`
 	SitesOff []string     `json:"sitesOff,omitempty"`
 	Choices  []int        `json:"choices,omitempty"`
+	TailSeed uint64       `json:"tailSeed,omitempty"` // see Input.TailSeed
+	TailPct  int          `json:"tailPct,omitempty"`
 	// FineSites: statement-level scheduling points enabled in this run (fine-grained mode only).
 	FineSites []string `json:"fineSites,omitempty"`
 }
@@ -595,6 +597,10 @@ func GenLockerIn(t *rapid.T) *LockerIn {
 			}
 			in.Choices = append(in.Choices, c)
 		}
+	}
+	if rapid.Bool().Draw(t, "hasTail") {
+		in.TailSeed = rapid.Uint64().Draw(t, "tailSeed")
+		in.TailPct = rapid.SampledFrom([]int{5, 20, 50}).Draw(t, "tailPct")
 	}
 	return in
 }
